@@ -9,7 +9,8 @@ the implementation.
 namespace IceProofs.GatherCycReach
 open IceModel.Gather IceProofs.GatherAgent IceProofs.GatherComplete
 
-def Reach (c : Cycle.State) : Prop := ∃ evs : List Cycle.Ev, c = (Cycle.run false {} evs).1
+/-- reached by the cycle machine from the initial state of an agent with gathering policy `k` -/
+def Reach (k : Bool) (c : Cycle.State) : Prop := ∃ evs : List Cycle.Ev, c = (Cycle.run false { continual := k } evs).1
 
 theorem run_append (r : Bool) : ∀ (a b : List Cycle.Ev) (s : Cycle.State),
     (Cycle.run r s (a ++ b)).1 = (Cycle.run r (Cycle.run r s a).1 b).1 := by
@@ -18,13 +19,13 @@ theorem run_append (r : Bool) : ∀ (a b : List Cycle.Ev) (s : Cycle.State),
   | nil => intro b s; rfl
   | cons e a ih => intro b s; simp only [List.cons_append, Cycle.run]; exact ih b _
 
-theorem reach_step {c : Cycle.State} (h : Reach c) (e : Cycle.Ev) : Reach (Cycle.step false c e).1 := by
+theorem reach_step {k : Bool} {c : Cycle.State} (h : Reach k c) (e : Cycle.Ev) : Reach k (Cycle.step false c e).1 := by
   obtain ⟨evs, rfl⟩ := h
   refine ⟨evs ++ [e], ?_⟩
   rw [run_append]
   simp [Cycle.run]
 
-theorem reach_init : Reach ({} : Cycle.State) := ⟨[], rfl⟩
+theorem reach_init (k : Bool) : Reach k ({ continual := k } : Cycle.State) := ⟨[], rfl⟩
 
 theorem resume_cyc (s : MState) (pick : Job → Option (Ans × Nat)) : (resume s pick).cyc = s.cyc := by
   unfold resume
@@ -69,7 +70,7 @@ theorem runCycleUnits_cyc (s : MState) (c gen : Nat) : (runCycleUnits s c gen).c
       | relay => exact (foldl_keeps _ (fun s u => startUnit_keeps s c gen u) _ _).cyc
   exact this _ _
 
-theorem finishCycle_reach {s : MState} (h : Reach s.cyc) : Reach (finishCycle s).cyc := by
+theorem finishCycle_reach {k : Bool} {s : MState} (h : Reach k s.cyc) : Reach k (finishCycle s).cyc := by
   unfold finishCycle
   split
   · exact h
@@ -77,10 +78,50 @@ theorem finishCycle_reach {s : MState} (h : Reach s.cyc) : Reach (finishCycle s)
     · exact h
     · split
       · exact h
-      · exact reach_step h _
+      · unfold startMonitorIf
+        split
+        · exact reach_step h _
+        · exact reach_step h _
 
-theorem openGate_reach {s : MState} (h : Reach s.cyc) : Reach (openGate s).cyc := by
+theorem recordKnown_cyc (s : MState) : (recordKnown s).cyc = s.cyc := by
+  unfold recordKnown; split <;> rfl
+
+theorem monPass_cyc (s : MState) (m : Mon) (c gen : Nat) : (monPass s m c gen).cyc = s.cyc := by
+  unfold monPass
+  split
+  · show (runCycleUnits (detect s).1 c gen).cyc = s.cyc
+    rw [runCycleUnits_cyc]; rfl
+  · rfl
+
+theorem monTick_reach {k : Bool} {s : MState} (h : Reach k s.cyc) (m : Mon) : Reach k (monTick s m).cyc := by
+  unfold monTick
+  split
+  · rw [monPass_cyc]; exact reach_step h _
+  · exact reach_step h _
+
+theorem monKick_reach {k : Bool} {s : MState} (h : Reach k s.cyc) : Reach k (monKick s).cyc := by
+  unfold monKick
+  split
+  · exact h
+  · split
+    · exact h
+    · split
+      · apply monTick_reach; exact h
+      · exact h
+
+theorem tickDue_reach {k : Bool} {s : MState} (h : Reach k s.cyc) : Reach k (tickDue s).cyc := by
+  unfold tickDue
+  split
+  · exact h
+  · split
+    · exact h
+    · split
+      · exact h
+      · apply monTick_reach; exact h
+
+theorem openGate_reach {k : Bool} {s : MState} (h : Reach k s.cyc) : Reach k (openGate s).cyc := by
   unfold openGate
+  apply monKick_reach
   apply finishCycle_reach
   have : ∀ (l : List Nat) (s0 : MState),
       (l.foldl (fun s c => runHost s c (((s.cyc.cycles[c]?).map (·.gen)).getD 0)) s0).cyc = s0.cyc := by
@@ -90,46 +131,69 @@ theorem openGate_reach {s : MState} (h : Reach s.cyc) : Reach (openGate s).cyc :
     | cons c l ih => intro s0; simp only [List.foldl_cons]; rw [ih]; exact runHost_cyc _ _ _
   rw [this]; exact h
 
-theorem expire_reach {s : MState} (h : Reach s.cyc) : Reach (expire s).cyc := by
+theorem expire_reach {k : Bool} {s : MState} (h : Reach k s.cyc) : Reach k (expire s).cyc := by
   unfold expire
+  apply monKick_reach
   apply finishCycle_reach
   rw [resume_cyc]; exact h
 
-theorem closeAgent_reach {s : MState} (h : Reach s.cyc) : Reach (closeAgent s).cyc := by
-  unfold closeAgent
-  show Reach (dropCands _).cyc
-  simp only [dropCands]
-  rw [resume_cyc]
-  have h1 := openGate_reach h
-  have h2 : Reach (Cycle.step false (openGate s).cyc .close).1 := reach_step h1 _
-  split
-  · simp only; rw [resume_cyc]; exact h2
-  · rw [resume_cyc]; exact h2
+theorem atTime_reach {k : Bool} {s : MState} (h : Reach k s.cyc) (t : Nat) : Reach k (atTime s t).cyc := by
+  unfold atTime
+  apply tickDue_reach
+  apply expire_reach
+  exact h
 
-theorem acceptGather_reach {s : MState} (h : Reach s.cyc) : Reach (acceptGather s).1.cyc := by
+theorem advLoop_reach {k : Bool} : ∀ (fuel : Nat) {s : MState}, Reach k s.cyc → ∀ target, Reach k (advLoop fuel s target).cyc := by
+  intro fuel
+  induction fuel with
+  | zero => intro s h _; exact h
+  | succ n ih =>
+    intro s h target
+    simp only [advLoop]
+    split
+    · exact h
+    · exact ih (atTime_reach h _) target
+
+theorem advTo_reach {k : Bool} {s : MState} (h : Reach k s.cyc) (t : Nat) : Reach k (advTo s t).cyc := by
+  unfold advTo
+  split
+  · exact atTime_reach (advLoop_reach _ h _) _
+  · exact expire_reach h
+
+theorem closeWait_cyc (s : MState) (dl : Nat) : (closeWait s dl).cyc = s.cyc := by
+  unfold closeWait; split <;> rfl
+
+theorem closeAgent_reach {k : Bool} {s : MState} (h : Reach k s.cyc) : Reach k (closeAgent s).cyc := by
+  unfold closeAgent
+  show Reach k (dropCands _).cyc
+  simp only [dropCands]
+  rw [resume_cyc, closeWait_cyc, resume_cyc]
+  exact reach_step (openGate_reach h) _
+
+theorem acceptGather_reach {k : Bool} {s : MState} (h : Reach k s.cyc) : Reach k (acceptGather s).1.cyc := by
   simp only [acceptGather]
   split
   · exact reach_step h _
   · exact h
   · exact h
 
-theorem startCycle_reach {s : MState} (h : Reach s.cyc) (cg : Option (Nat × Nat)) : Reach (startCycle s cg).cyc := by
+theorem startCycle_reach {k : Bool} {s : MState} (h : Reach k s.cyc) (cg : Option (Nat × Nat)) : Reach k (startCycle s cg).cyc := by
   simp only [startCycle]
   split
   · exact h
   · split
     · exact reach_step h _
     · apply finishCycle_reach
-      rw [runCycleUnits_cyc]
+      rw [runCycleUnits_cyc, recordKnown_cyc]
       exact reach_step h _
 
-theorem restartOp_reach {s : MState} (h : Reach s.cyc) : Reach (restartOp s).1.cyc := by
+theorem restartOp_reach {k : Bool} {s : MState} (h : Reach k s.cyc) : Reach k (restartOp s).1.cyc := by
   simp only [restartOp]
   split
   · rw [resume_cyc]; exact reach_step h _
   · exact h
 
-theorem step_reach {s : MState} (h : Reach s.cyc) (op : Op) : Reach (step s op).1.cyc := by
+theorem step_reach {k : Bool} {s : MState} (h : Reach k s.cyc) (op : Op) : Reach k (step s op).1.cyc := by
   cases op with
   | gather2 =>
     simp only [step]
@@ -141,10 +205,12 @@ theorem step_reach {s : MState} (h : Reach s.cyc) (op : Op) : Reach (step s op).
     simp only [step]
     split
     · apply finishCycle_reach
-      rw [runCycleUnits_cyc]
+      rw [runCycleUnits_cyc, recordKnown_cyc]
       exact reach_step (reach_step h _) _
     · exact h
     · exact h
+  | ifaces t => exact h
+  | hold => exact h
   | restart =>
     simp only [step]
     split
@@ -157,29 +223,29 @@ theorem step_reach {s : MState} (h : Reach s.cyc) (op : Op) : Reach (step s op).
     · exact h
     · unfold applyFailed
       split
-      · exact expire_reach h
-      · exact expire_reach h
+      · exact advTo_reach h _
+      · exact advTo_reach h _
   | release => exact openGate_reach h
-  | adv ms => exact expire_reach h
-  | stunreply k m =>
+  | adv ms => exact advTo_reach h _
+  | stunreply k' m =>
     simp only [step]
     split
     · exact h
-    · apply finishCycle_reach; rw [resume_cyc]; exact h
-  | turnreply k ok m =>
+    · apply monKick_reach; apply finishCycle_reach; rw [resume_cyc]; exact h
+  | turnreply k' ok m =>
     simp only [step]
     split
     · exact h
-    · apply finishCycle_reach; rw [resume_cyc]; exact h
+    · apply monKick_reach; apply finishCycle_reach; rw [resume_cyc]; exact h
 
-theorem runOps_reach : ∀ (ops : List Op) {s : MState}, Reach s.cyc → Reach (runOps s ops).cyc := by
+theorem runOps_reach {k : Bool} : ∀ (ops : List Op) {s : MState}, Reach k s.cyc → Reach k (runOps s ops).cyc := by
   intro ops
   induction ops with
   | nil => intro s h; exact h
   | cons op ops ih => intro s h; exact ih (step_reach h op)
 
-theorem init_reach (cfg : Config) (ifs : List Iface) (s : MState) (h : newAgent cfg ifs = .ok s) : Reach s.cyc := by
+theorem init_reach (cfg : Config) (ifs : List Iface) (s : MState) (h : newAgent cfg ifs = .ok s) : Reach cfg.continual s.cyc := by
   rw [IceProofs.GatherAgent.newAgent_ok h]
-  exact reach_init
+  exact reach_init _
 
 end IceProofs.GatherCycReach
